@@ -203,6 +203,7 @@ func runC02(c *Ctx, r *Report) {
 	defer c02r8(c, r)
 	defer c02r10(c, r)
 	defer c02r11(c, r)
+	defer c02r12(c, r)
 	defer c02r7(c, r)
 	defer c13r3(c, r) // workers of a cancelled scan must be gone before their slabs are handed out again (crash otherwise)
 	defer func() {
